@@ -153,6 +153,10 @@ class Interp:
                         self.tick_body()
                         o = body[min(attempt - 1, len(body) - 1)]
                         if "err" in o:
+                            if o["err"]["cls"] == "InvocationError":
+                                # user code may raise the SDK's own (exported) error classes inside a step
+                                from aws_durable_execution_sdk_python.exceptions import InvocationError as _IE
+                                raise _IE(o["err"]["msg"])
                             raise type(o["err"]["cls"], (Exception,), {})(o["err"]["msg"])
                         return VALUE_POOL[o["ok"]]
 
@@ -163,8 +167,21 @@ class Interp:
                         d = ds[min(made - 1, len(ds) - 1)] if ds else 0
                         return RetryDecision.retry(Duration(seconds=d))
 
+                    serdes = None
+                    if st.get("fragile"):
+                        # a serializer whose stored format is no longer readable in later invocations (a deploy changed the
+                        # format, a key was rotated): reading a recorded result then fails - it must never run the step again
+                        from aws_durable_execution_sdk_python.serdes import ExtendedTypeSerDes
+                        interp_ = self
+
+                        class Fragile(ExtendedTypeSerDes):
+                            def deserialize(self, data, c):
+                                if interp_.backend.invocation_no >= 1:
+                                    raise ValueError("stored payload written in an older format")
+                                return super().deserialize(data, c)
+                        serdes = Fragile()
                     v = ctx.step(fn, name=name, config=StepConfig(
-                        retry_strategy=strategy,
+                        retry_strategy=strategy, serdes=serdes,
                         step_semantics=StepSemantics.AT_MOST_ONCE_PER_RETRY if st.get("amo") else StepSemantics.AT_LEAST_ONCE_PER_RETRY))
                     tok = token_of(v)
                 elif op == "wait":
